@@ -21,7 +21,7 @@ EXPLANATION = ("T1 proves the conversion functions against the statement for all
                "mitmproxy.net.http.validate and is only checked bounded (T2), as is the composition through HttpStream; _http_h3.py is not driven. "
                "Known findings KF-C06-1..6 are excluded by their class predicates and re-witnessed on every run.")
 ASSUMPTIONS = [
-    "h2.utilities.normalize_outbound_headers (HTTP/1 -> HTTP/2 field normalisation) is a trusted library function: T1 proves which list and direction flag it is applied to; its effect is checked bounded in T2",
+    "h2.utilities.normalize_outbound_headers (HTTP/1 -> HTTP/2|3 field normalisation: lower-case names, strip value whitespace, remove connection/proxy-connection/keep-alive/transfer-encoding/upgrade, split request cookies) is a trusted library contract: T1 proves that normalize_h1_headers applies it exactly once to the whole list with the direction's flags for every spelling of the names (scenario normalize_h1_headers; the library contract itself is asserted natively on the concrete cases) and which list format_h2_*_headers hand to normalize_h1_headers; T2 sends HTTP/1 messages with hop-by-hop fields in lower/title/upper spelling to HTTP/2|3 peers",
     "url.parse_authority is evaluated by the real function on 16 concrete authorities (C33 covers it); bytes.lower/islower/decode are uninterpreted with the lemmas noted by the engine",
     "Serializable.copy of a message is a structural copy (C40)",
     "header blocks have <= 5 entries with symbolic contents (shapes enumerated); Headers with <= 3 fields",
@@ -669,6 +669,68 @@ def _cls(ref):
     return resolve_ref(ref)[2]
 
 
+CONNECTION_SPECIFIC = (b"connection", b"proxy-connection", b"keep-alive", b"transfer-encoding", b"upgrade")
+
+NORM_CASES = {
+    "symbolic": None,
+    "all_lowercase_with_hop_by_hop": [(b"connection", b"keep-alive, x-drop"), (b"keep-alive", b"timeout=5"), (b"x-a", b"1"), (b"transfer-encoding", b"chunked")],
+    "all_lowercase_plain": [(b"x-a", b"1"), (b"accept", b"*/*")],
+    "mixed_case_with_hop_by_hop": [(b"Connection", b"close"), (b"X-A", b" 1 "), (b"Proxy-Connection", b"keep-alive"), (b"Upgrade", b"h2c")],
+    "cookies": [(b"cookie", b"a=1; b=2"), (b"x-a", b"1")],
+    "empty": [],
+}
+
+
+@scenario("normalize_h1_headers", functions=[M2 + ":normalize_h1_headers"])
+def s_normalize_h1(vc):
+    """HTTP/1 -> HTTP/2|3: *every* field list goes through hyper-h2's outbound normalisation with the flags of the direction,
+    whatever the spelling of its names. Trusted hyper-h2 contract (h2.utilities.normalize_outbound_headers, RFC 9113 8.2.1/8.2.2;
+    checked natively on the concrete cases below and in T2): names are lower-cased, surrounding whitespace of values is stripped,
+    connection-specific fields (connection, proxy-connection, keep-alive, transfer-encoding, upgrade) are removed, a request's
+    cookie field may be split into crumbs, everything else is kept in order."""
+    import h2.utilities
+    case = vc.case("fields", list(NORM_CASES))
+    is_client = vc.case("is_client", [True, False])
+    fields = sym_fields(vc, 2) if NORM_CASES[case] is None else list(NORM_CASES[case])
+    real_h2 = h2.utilities.normalize_outbound_headers
+    calls = []
+
+    def h2_normalize(v, headers, flags):
+        calls.append((headers, flags))
+        if v.mode == "native":
+            return real_h2(headers, flags)
+        return v.list([v.ghost("H2-NORMALIZED")])
+
+    vc.summary("h2.utilities:normalize_outbound_headers", h2_normalize)
+    arg = vc.list([vc.lift(f) for f in fields]) if vc.mode == "sym" else list(fields)
+    out = vc.call(M2 + ":normalize_h1_headers", arg, is_client)
+    vc.ensure("no_exception", out.ok)
+    if not out.ok:
+        return
+    # (separate obligation names for the concrete field lists: their counter-examples replay on the real code, whereas a model of
+    # the symbolic case interprets the uninterpreted islower/lower freely)
+    pre = "" if NORM_CASES[case] is None else "concrete."
+    vc.ensure(pre + "always_normalised_by_hyper_h2_exactly_once", len(calls) == 1)
+    if len(calls) != 1:
+        return
+    got_arg, flags = calls[0]
+    vc.ensure("whole_list_in_order_is_normalised", fields_eq(vc, items_of(vc, got_arg), fields))
+    fl = list(flags.fields["_items"].items) if isinstance(flags, SObj) else list(flags)   # (is_client, is_trailer, is_response_header, is_push_promise)
+    vc.ensure("flags.direction", And(vc.eq(fl[0], is_client), vc.eq(fl[2], not is_client)))
+    vc.ensure("flags.not_trailer_not_push", And(vc.eq(fl[1], False), vc.eq(fl[3], False)))
+    res = items_of(vc, out.result)
+    if vc.mode == "sym":
+        vc.ensure("result_is_the_normalised_list", len(res) == 1 and isinstance(res[0], STuple) and res[0].items[0].concrete() == "H2-NORMALIZED")
+    else:
+        vc.ensure("result_is_the_normalised_list", res == list(real_h2(list(fields), flags)))
+        # the trusted library contract, checked on this concrete input
+        names = [k for k, _ in res]
+        assert all(k == k.lower() for k in names), res
+        assert not any(k in CONNECTION_SPECIFIC for k in names), res
+        kept = [(k.lower(), v.strip()) for k, v in fields if k.lower() not in CONNECTION_SPECIFIC and k.lower() != b"cookie"]
+        assert [(k, v) for k, v in res if k != b"cookie"] == kept, (res, kept)
+
+
 # =============================================================================================
 # T2 (bounded)
 
@@ -1099,6 +1161,8 @@ def check_request(b, inp, cproto, sproto, req, r):
             b.fail("request.host_becomes_authority_only", inp, f"Host field kept next to :authority: {got['headers']}")
         if any(k != k.lower() for k, _ in got["headers"]):
             b.fail("request.h2_names_lowercase", inp, str(got["headers"]))
+        if any(k.lower() in CONNECTION_SPECIFIC for k, _ in got["headers"]):
+            b.fail("request.h2_no_connection_specific_fields", inp, str(got["headers"]))
         if canon_fields(got["headers"], drop={b"host"}) != canon_fields(sent_fields):
             b.fail("request.fields_preserved", inp, f"sent {canon_fields(sent_fields)}, upstream read {canon_fields(got['headers'], drop={b'host'})}")
         if got["body"] != body or not got["ended"]:
@@ -1138,6 +1202,8 @@ def check_response(b, inp, cproto, sproto, req, resp, r):
             b.fail("response.status_preserved", inp, f"sent {resp['status']}, client read {_pseudo(got['headers'])}")
         if any(k != k.lower() for k, _ in got["headers"]):
             b.fail("response.h2_names_lowercase", inp, str(got["headers"]))
+        if any(k.lower() in CONNECTION_SPECIFIC for k, _ in got["headers"]):
+            b.fail("response.h2_no_connection_specific_fields", inp, str(got["headers"]))
         if canon_fields(got["headers"]) != canon_fields(resp["headers"]):
             b.fail("response.fields_preserved", inp, f"sent {canon_fields(resp['headers'])}, client read {canon_fields(got['headers'])}")
         if got["body"] != body or not got["ended"]:
@@ -1504,6 +1570,57 @@ def bounded(tier, seed):
         o = check_adversarial_response(b, label, blk)
         outcomes[("resp", o)] = outcomes.get(("resp", o), 0) + 1
         b.case(("adv-resp", label), nontrivial=o == "forwarded")
+    # HTTP/1 messages with hop-by-hop fields towards an HTTP/2|3 peer, in every spelling of the names (all lower-case included)
+    hop_sets = [[("connection", "keep-alive"), ("keep-alive", "timeout=5")], [("connection", "close")], [("proxy-connection", "keep-alive")],
+                [("connection", "upgrade"), ("upgrade", "h2c")], [("transfer-encoding", "chunked")], [("connection", "x-custom"), ("x-custom", "1")]]
+    spellings = {"lower": str.lower, "title": str.title, "upper": str.upper}
+    for hops in hop_sets:
+        for sp_name, sp in spellings.items():
+            for direction in ("request", "response"):
+                for cproto in (("h1",) if direction == "request" else ("h2", "h3")):
+                    chunked = any(k == "transfer-encoding" for k, _ in hops)
+                    hop_fields = [(sp(k).encode(), v.encode()) for k, v in hops]
+                    extra = [(sp("x-keep").encode(), b"1")]
+                    inp = {"kind": "hop-by-hop", "direction": direction, "client": cproto, "spelling": sp_name, "fields": [[k.decode(), v.decode()] for k, v in hop_fields]}
+                    if direction == "request":
+                        body = b"hello"
+                        fields = [(sp("host").encode(), b"a.test")] + extra + hop_fields
+                        if chunked:
+                            wire = b"5\r\nhello\r\n0\r\n\r\n"
+                        else:
+                            fields.append((sp("content-length").encode(), b"5"))
+                            wire = body
+                        req = dict(method=b"POST", scheme=b"https", authority=b"a.test", path=b"/hop", headers=fields, body=body, wire_body=wire, trailers=None)
+                        r = run_exchange("h1", "h2", req, dict(status=200, headers=[], body=None, trailers=None))
+                        got = r["up_request"]
+                    else:
+                        fields = extra + hop_fields
+                        body = b"abc"
+                        if chunked:
+                            payload = b"3\r\nabc\r\n0\r\n\r\n"
+                        else:
+                            fields = fields + [(sp("content-length").encode(), b"3")]
+                            payload = body
+                        wire = b"HTTP/1.1 200 OK\r\n" + b"".join(k + b": " + v + b"\r\n" for k, v in fields) + b"\r\n" + payload
+                        req = dict(method=b"GET", scheme=b"https", authority=b"a.test", path=b"/hop", headers=[], body=None, trailers=None)
+                        r = run_exchange(cproto, "h1", req, dict(status=200, headers=fields, body=body, trailers=None, wire=wire, close=False))
+                        got = r["client_response"]
+                    b.case(("hop-by-hop", direction, cproto, sp_name, tuple(hops)), nontrivial=got is not None)
+                    if any(p_[0] == "crash" for p_ in r["problems"]):
+                        b.fail("exchange.no_crash", inp, str(r["problems"]))
+                        continue
+                    if got is None or got.get("headers") is None:
+                        b.fail("hop_by_hop.message_forwarded", inp, f"nothing arrived: {r['problems']}")
+                        continue
+                    names = [k for k, _ in got["headers"]]
+                    if any(k.lower() in CONNECTION_SPECIFIC for k in names):
+                        b.fail("hop_by_hop.connection_specific_fields_not_forwarded_to_h2", inp, str(got["headers"]))
+                    if any(k != k.lower() for k in names):
+                        b.fail("hop_by_hop.h2_names_lowercase", inp, str(got["headers"]))
+                    if (b"x-keep", b"1") not in got["headers"]:
+                        b.fail("hop_by_hop.end_to_end_field_kept", inp, str(got["headers"]))
+                    if got["body"] != body or not got["ended"]:
+                        b.fail("hop_by_hop.body_kept", inp, f"{got['body']!r} ended={got['ended']}")
     # HTTP/1 -> HTTP/2: field bytes that are not UTF-8 (HTTP/1 field values are opaque octets)
     for label, fields in (("non-utf8 value", [(b"x-bin", b"\xff\xfe")]), ("latin-1 value", [(b"x-l1", b"caf\xe9")]), ("utf8 host", [(b"Host", b"caf\xc3\xa9.test")]),
                           ("non-utf8 host", [(b"Host", b"\xff.test")]), ("latin-1 host", [(b"Host", b"caf\xe9.test")])):
